@@ -488,7 +488,6 @@ Proof.
                    wp true (Icr E) (reenqueue c v t (dels ++ [i]) errc) st (fun y st' => St E (fst y) [] st')).
     { intros Hn. apply IH. eapply RSt_moved; [exact HR|]. intros r' Hr'. congruence. }
     destruct (iget i (s_items st)) as [r|] eqn:Eb; cbn [option_map] in Hval; subst val; [|now apply Skip].
-    destruct (would_wait c v r); [reflexivity|].
     apply wp_bind.
     apply (wp_put c true (Icr E) (RSt ((i, Some (VBody r)) :: t) dels)); auto.
     + apply RSt_Icr.
